@@ -88,6 +88,10 @@ namespace Pistache::Http::Experimental
         void performImpl(const Http::Request& request, Async::Resolver resolve,
                          Async::Rejection reject, OnDone onDone);
 
+        // queues the request until connect() has established the connection
+        void performWhenConnected(const Http::Request& request, Async::Resolver resolve,
+                                  Async::Rejection reject, OnDone onDone);
+
         Fd fd() const;
         void handleResponsePacket(const char* buffer, size_t totalBytes);
         void handleError(const char* error);
